@@ -5,8 +5,8 @@ package rw
 
 import (
 	"bytes"
-	"errors"
 	"encoding/json"
+	"errors"
 	"io"
 	"os"
 	"sort"
@@ -24,6 +24,15 @@ import (
 func init() {
 	logrus.SetOutput(io.Discard)
 	logrus.SetLevel(logrus.PanicLevel)
+}
+
+// AtLogLevel runs f with the process-wide log level of the library's logger set to level (output stays discarded)
+// and restores the harness' default afterwards. The log level is part of the environment: code behind a level test
+// (diagnostics, traces, summaries) only runs where somebody has turned it on.
+func AtLogLevel(level logrus.Level, f func()) {
+	logrus.SetLevel(level)
+	defer logrus.SetLevel(logrus.PanicLevel)
+	f()
 }
 
 var errTrailing = errors.New("data after the end of the JSON document")
